@@ -221,7 +221,7 @@ def check_C04(ctx):
 
 def check_C05(ctx):
     import oracles
-    fs_property(ctx, "C05", "C05", ["C05_step_appends", "C05_history_appends", "C05_records_stay", "C05_nonvacuous"], oracles.c05)
+    fs_property(ctx, "C05", "C05", ["C05_step_appends", "C05_history_appends", "C05_records_stay", "C05_nonvacuous", "C05_tape_is_archives", "C05_step_appends_archives", "C05_archives_decidable", "C05_blocks_of_archives", "C05_bytes_on_the_grid", "C05_member_table", "C05_members_at_their_positions", "C05_refused_precondition_appends_nothing", "C05_failed_after_write_is_replay_failure", "C05_readonly_appends_nothing", "C05_failed_call_appends_nothing_sync", "C05_failed_call_appends_nothing", "C05_failed_call_appends_nothing_all_calls", "C05_history_failed_calls_append_nothing"], oracles.c05)
     # every pipeline configuration: the configuration-matrix histories (codecs, encryption, signatures, both write caches) with the tape
     # observed after every call
     import crypto
@@ -357,7 +357,7 @@ def check_C14(ctx):
 def check_C16(ctx):
     import opening, collections
     ctx.trusted += M1_TRUST + ["what the indexer makes of a cut tape is Model/Prefix.v (tied by the C06 sweep); Initialize is Model/Fs.v fs_initialize (tied by the FS correspondence run)"]
-    coq_props(ctx, "C16", ["C16_never_rewrites", "C16_existing_index_untouched", "C16_rebuild_appends_nothing", "C16_appends_only_without_root"])
+    coq_props(ctx, "C16", ["C16_never_rewrites", "C16_existing_index_untouched", "C16_rebuild_appends_nothing", "C16_appends_only_without_root", "C16_rebuildable_tape", "C16_absent_index", "C16_current_index", "C16_current_index_root_kept", "C16_rebuilt_index", "C16_continue_current", "C16_continue_rebuilt", "C16_reopened_shows_the_same_tree"])
     # the FS correspondence run ties fs_initialize / reopen
     import streams
     data_fs = streams.fs_stream(ctx)
